@@ -100,6 +100,10 @@ class Runner:
 
 
 def scenario(args):
+    return scenario_runner(args).trace()
+
+
+def scenario_runner(args):
     sym, seed, kind = args
     rng = random.Random(seed)
     mod = T.SYMS[sym]
@@ -120,7 +124,7 @@ def scenario(args):
         mode = rng.choice(('hard', 'meta', 'hard'))
         a = R.do({'op': 'fuse', 'a': 0, 'parts': [[inv[0], inv[1]], [inv[2], inv[3]]], 'mode': mode})
         if a is None:
-            return R.trace()
+            return R
         if rng.random() < 0.5:
             a = R.do({'op': 'transpose', 'a': a, 'p': [1, 0]})
         R.do({'op': 'norm2', 'a': a})
@@ -129,7 +133,7 @@ def scenario(args):
             c = R.do({'op': 'consume_transpose', 'a': a})
             R.do({'op': 'trace', 'a': c, 'l0': [1], 'l1': [0]})
         R.do({'op': 'unfuse', 'a': a, 'axes': [0, 1]})
-        return R.trace()
+        return R
     sa = [rng.choice((1, -1)) for _ in range(rank)]
     opposite = rng.random() < 0.5
     sb = [-x for x in sa] if opposite else list(sa)
@@ -184,7 +188,7 @@ def scenario(args):
         a2 = R.do({'op': 'fuse', 'a': a, 'parts': parts, 'mode': mode})
         b2 = R.do({'op': 'fuse', 'a': b, 'parts': partsb, 'mode': modeb})
         if a2 is None or b2 is None:
-            return R.trace()
+            return R
         a, b = a2, b2
         R.do({'op': 'norm2', 'a': a})
         if rng.random() < 0.35:     # lazy transposition of both (same permutation keeps the operands aligned)
@@ -204,7 +208,7 @@ def scenario(args):
                 break
             a = R.do({'op': 'unfuse', 'a': a, 'axes': f})
             R.do({'op': 'norm2', 'a': a})
-        return R.trace()
+        return R
     lra, lrb = len(R.obs[a]['grp']), len(R.obs[b]['grp'])
     conj_b = 0 if opposite else 1
     # tensordot over 1..all logical legs (aligned positions), over the fused ones preferably
@@ -232,7 +236,7 @@ def scenario(args):
                 R.do({'op': 'unfuse', 'a': c, 'axes': f})
     else:
         R.do({'op': 'tensordot', 'a': a, 'b': b, 'la': [0], 'lb': [0], 'conj': [0, conj_b]})
-    return R.trace()
+    return R
 
 
 def main(tier, seed, replay=None):
